@@ -74,9 +74,12 @@ class Gen09(langgen.Gen):
       corpus instead)."""
 
     fn_bases = ()
+    # once the resolver types names dynamically while it infers signatures (the repair of
+    # c09-return-type-from-outer-scope) the two restrictions above are lifted
+    relaxed = False
 
     def ret_expr(self, f):
-        if not self.fn_bases:
+        if not self.fn_bases or self.relaxed:
             return langgen.Gen.ret_expr(self, f)
         saved = self.scopes
         self.scopes = self.scopes[self.fn_bases[-1]:]
@@ -86,6 +89,8 @@ class Gen09(langgen.Gen):
             self.scopes = saved
 
     def own_atom(self, ty):
+        if self.relaxed:
+            return self.atom(ty)
         saved = self.scopes
         self.scopes = self.scopes[self.fn_bases[-1]:]
         try:
@@ -94,7 +99,7 @@ class Gen09(langgen.Gen):
             self.scopes = saved
 
     def stmt(self, ind):
-        if self.fn_stack:
+        if self.fn_stack and not self.relaxed:
             saved = self.o.p_shadow
             self.o.p_shadow = 0.0
             try:
@@ -160,7 +165,22 @@ def gen_program(rng):
     o = langgen.Opts(max_stmts=rng.choice([6, 10, 14]), p_fn=rng.choice([0.18, 0.3]), p_loop=rng.choice([0.14, 0.25]),
                      p_block=rng.choice([0.05, 0.12]), p_trap=0.0)
     g = Gen09(rng, o)
+    g.relaxed = signature_names_dynamic()
     return g.program(), g.stats
+
+
+_SIG = {}
+
+
+def signature_names_dynamic():
+    """the behaviour switch the translator also reads (GenRules.src_signature_names_dynamic)"""
+    if "v" not in _SIG:
+        try:
+            src = open(os.path.join(common.REPO, "src", "resolver.rs"), encoding="utf-8").read()
+            _SIG["v"] = bool(re.search(r"Expr::Var\(\.\.\)\s*if\s+self\.signature_body\.is_some\(\)", src))
+        except OSError:
+            _SIG["v"] = False
+    return _SIG["v"]
 
 
 # ----------------------------------------------------------------------------------------
